@@ -13,9 +13,6 @@ Local Open Scope R_scope.
 Module P3 := PAV.Proofs.C03.
 
 Notation RK := (list (list R)).
-(* the k-th unmasked pixel (slim order) *)
-Definition Uat (m : mask) (k : nat) : px := nth k (unmasked m) (0%Z, 0%Z).
-
 Ltac foldU := repeat match goal with |- context [@nth ?A ?k (unmasked ?m) (0%Z, 0%Z)] =>
   change (@nth A k (unmasked m) (0%Z, 0%Z)) with (Uat m k) end.
 
@@ -151,18 +148,11 @@ Proof.
 Qed.
 
 (* ================================================================== 4. w_tilde_curvature_value_from = (C^T N^-1 C)[d0][d1] *)
-(* the kernel as a function on Z x Z, zero outside its shape (same test order as the code) *)
-Definition inrange (K : RK) (a : Z * Z) : bool :=
-  ((fst a >=? 0) && (snd a >=? 0) && (fst a <? rows K) && (snd a <? cols K))%Z.
-Definition kz (K : RK) (a : Z * Z) : R := if inrange K a then P3.kval K a else 0.
-(* kernel cell that carries pixel p onto pixel t *)
-Definition koff (K : RK) (t p : px) : Z * Z := (fst t - fst p + rows K / 2, snd t - snd p + cols K / 2)%Z.
-
 Lemma existsb_kcells (K : RK) x : existsb (fun s => px_eqb s x) (P3.kcells K) = inrange K x.
 Proof.
   apply eq_iff_eq_true. rewrite existsb_exists. split.
-  - intros [y [Hy E]]. apply P3.px_eqb_eq in E. subst y. apply P3.in_kcells in Hy. unfold inrange. lia.
-  - intros H. exists x. split; [apply P3.in_kcells; unfold inrange in H; lia | apply P3.px_eqb_refl].
+  - intros [y [Hy E]]. apply P3.px_eqb_eq in E. subst y. apply P3.in_kcells in Hy. unfold inrange. rfix. lia.
+  - intros H. exists x. split; [apply P3.in_kcells; unfold inrange in H; rfix; lia | apply P3.px_eqb_refl].
 Qed.
 Lemma NoDup_kcells (K : RK) : NoDup (P3.kcells K).
 Proof. apply P3.NoDup_list_prod; apply P3.NoDup_seqZ. Qed.
@@ -176,7 +166,7 @@ Proof.
   transitivity (sumR (map (fun ij => if px_eqb ij (koff K (Uat m i) (Uat m s)) then P3.kval K ij else 0) (P3.kcells K))).
   - apply sumR_map_ext. intros ij _.
     replace (px_eqb (P3.tgt K (Uat m s) ij) (Uat m i)) with (px_eqb ij (koff K (Uat m i) (Uat m s))); [reflexivity|].
-    unfold px_eqb, P3.tgt, koff. cbn [fst snd]. lia.
+    unfold px_eqb, P3.tgt, koff. cbn [fst snd]. rfix. lia.
   - rewrite (sumR_indicator px_eqb (P3.kval K)) by (apply P3.px_eqb_eq || apply NoDup_kcells).
     rewrite existsb_kcells. reflexivity.
 Qed.
@@ -193,7 +183,7 @@ Proof.
   - (* early return: no kernel cell can overlap *)
     symmetry. apply sumR_map_zero. intros ij Hij. apply P3.in_kcells in Hij.
     destruct (Rltb 0 (noise (P3.tgt K p0 ij))); [|reflexivity].
-    unfold kz, inrange. cbn [fst snd].
+    unfold kz, inrange. cbn [fst snd]. rfix.
     replace ((fst ij + (fst p0 - fst p1) >=? 0) && (snd ij + (snd p0 - snd p1) >=? 0)
              && (fst ij + (fst p0 - fst p1) <? rows K) && (snd ij + (snd p0 - snd p1) <? cols K))%Z with false.
     + unfold zero. cbn. lra.
@@ -205,7 +195,7 @@ Proof.
     replace (fst p0 + ky + - (rows K / 2), snd p0 + kx + - (cols K / 2))%Z with (P3.tgt K p0 (ky, kx))
       by (unfold P3.tgt; cbn [fst snd]; f_equal; lia).
     runfold. destruct (Rltb 0 (noise (P3.tgt K p0 (ky, kx)))) eqn:L; [|reflexivity].
-    apply Rltb_true in L. unfold kz, inrange. cbn [fst snd].
+    apply Rltb_true in L. unfold kz, inrange. cbn [fst snd]. rfix.
     destruct ((ky + (fst p0 - fst p1) >=? 0) && (kx + (snd p0 - snd p1) >=? 0)
               && (ky + (fst p0 - fst p1) <? rows K) && (kx + (snd p0 - snd p1) <? cols K))%Z; cbn [sumR].
     + unfold kat, P3.kval. runfold. field. lra.
@@ -225,7 +215,7 @@ Proof.
   rewrite wt_value_cells. apply sumR_map_ext. intros ij _. cbv zeta.
   destruct (unmasked_cases m (P3.tgt K (Uat m d0) ij)) as [[i [Hi E]]|Hout].
   - replace (fst ij + (fst (Uat m d0) - fst (Uat m d1)), snd ij + (snd (Uat m d0) - snd (Uat m d1)))%Z
-      with (koff K (P3.tgt K (Uat m d0) ij) (Uat m d1)) by (unfold koff, P3.tgt; cbn [fst snd]; f_equal; lia).
+      with (koff K (P3.tgt K (Uat m d0) ij) (Uat m d1)) by (unfold koff, P3.tgt; cbn [fst snd]; rfix; f_equal; lia).
     rewrite E. rewrite pick_at, native_at by assumption.
     rewrite (Cop_kz m K c i d1) by assumption.
     assert (L : Rltb 0 (nth i s 0) = true) by (apply Rltb_true; now apply Hpos). rewrite L. ring.
